@@ -56,3 +56,28 @@ def check(ctx, res, entries):
             else:
                 res.ok("C01.R3")
     res.floor("operations on host values reachable from the trace callback", nops, 12)
+    # state of the process that the program can observe: the global random stream, the environment, the interpreter's
+    # settings, the root logger, the working directory - the agent's event handling leaves them alone
+    GLOBAL_STATE = ("random.", "os.chdir", "os.putenv", "os.unsetenv", "os.umask", "sys.setrecursionlimit", "sys.setswitchinterval", "sys.setprofile",
+                    "locale.setlocale", "warnings.simplefilter", "warnings.filterwarnings", "logging.basicConfig", "logging.disable", "gc.disable", "gc.enable",
+                    "gc.collect", "gc.set_threshold", "signal.signal", "signal.alarm", "time.sleep", "builtins.input", "builtins.print", "builtins.exec",
+                    "decimal.setcontext", "decimal.getcontext", "faulthandler.", "tracemalloc.start")
+    nglob = 0
+    for k in sorted(scope):
+        fi = scope[k]
+        for c in t.calls_in(fi):
+            for e in t.resolve_call(c, fi).ext:
+                if e.startswith("random.SystemRandom") or e in ("random.Random",):
+                    continue
+                if any(e == gname or (gname.endswith(".") and e.startswith(gname)) for gname in GLOBAL_STATE):
+                    nglob += 1
+                    res.fail(Finding("C01.R3", fi.qname, c, fi.loc(c), "%s changes / consumes state of the process that the traced program can observe (global random stream, "
+                                     "interpreter or logging settings, output): the program behaves differently with the agent attached" % e))
+        for n in t.nodes_in(fi, (ast.Assign, ast.AugAssign, ast.Delete)):
+            tg_ = n.targets if isinstance(n, (ast.Assign, ast.Delete)) else [n.target]
+            for x in tg_:
+                if isinstance(x, ast.Subscript) and norm(x.value) in ("os.environ", "sys.modules", "sys.path") or \
+                        isinstance(x, ast.Attribute) and norm(x.value) in ("sys", "builtins", "os"):
+                    res.fail(Finding("C01.R3", fi.qname, n, fi.loc(n), "`%s` modifies process-wide state the traced program can observe" % norm(n)[:60]))
+    if not nglob:
+        res.ok("C01.R3", {"no process-global state touched below the trace callback": len(scope)})
